@@ -1,5 +1,10 @@
-From Mds Require Import Common.ExtractBase Gen.QueueIdx Queue.QueueModel Queue.QueueSpec.
+From Mds Require Import Common.ExtractBase Gen.QueueIdx Queue.QueueModel Queue.QueueSpec Queue.QueueUnitModel.
 Require Extraction.
 Require Import ExtrOcamlBasic.
-Extraction "queue_model.ml" QueueModel.mk_init QueueModel.step QueueModel.run_init QueueModel.hook_state
-  QueueSpec.spec_step QueueSpec.spec_run base_types.
+(* step64 / run_init64: the model at Go's 64-bit int width (QueueModel.wrap64), calling the C17
+   loop model of slice.Rotate; this is what the correspondence replays against the real package.
+   ustep64 / ustep_ideal: the same model on a zero-size element type (buffers = lengths; proved
+   equal to the main model on unit elements, QueueUnitProofs) at both widths, for the U lines. *)
+Extraction "queue_model.ml" QueueModel.mk_init QueueModel.step64 QueueModel.run_init64 QueueModel.hook_state
+  QueueSpec.spec_step QueueSpec.spec_run
+  QueueUnitModel.umk_init QueueUnitModel.ustep64 QueueUnitModel.ustep_ideal QueueUnitModel.uhook_state base_types.
